@@ -418,6 +418,10 @@ def known_match(case: dict, detail: Any) -> Optional[str]:
     """Exact rules of notes/findings/C11.json."""
     if not isinstance(detail, dict):
         return None
+    import html
+    if isinstance(case.get('xml'), str) and '&' in case['xml']:
+        case = dict(case, xml_raw=case['xml'])
+        case['xml'] = html.unescape(case['xml'])
     exc = detail.get('exc')
     if exc == 'RecursionError':
         d = case.get('depth')
@@ -468,6 +472,8 @@ def known_match(case: dict, detail: Any) -> Optional[str]:
 def case_bytes(case: dict) -> Optional[bytes]:
     if case.get('hex'):
         return bytes.fromhex(case['hex'])
+    if case.get('xml_raw') is not None:
+        return case['xml_raw'].encode('utf-8', 'surrogatepass')
     if case.get('xml') is not None:
         return case['xml'].encode('utf-8', 'surrogatepass')
     return None
@@ -599,7 +605,7 @@ def resource_outcome(data: bytes, lazy: bool) -> dict:
     except __import__("xmlschema.exceptions").exceptions.XMLResourceExceeded as e:
         msg = str(e)
         return {'res': 'depth' if 'maximum XML depth' in msg else 'elements' if 'maximum XML elements' in msg else 'exceeded?',
-                'exc': type(e).__name__}
+                'exc': type(e).__name__, 'library': isinstance(e, xmlschema.XMLSchemaException)}
     except RecursionError as e:
         return {'res': 'exc', 'exc': 'RecursionError', 'msg': str(e)[:100]}
     except Exception as e:  # noqa
@@ -644,6 +650,9 @@ def limit_case(ctx: Ctx, L: int, E: int, f: list, kind: str, reqs: Optional[list
         if out['res'] == 'exc':
             report(ctx, 'building / traversing the resource raised something else than the documented resource error',
                    case, {'exc': out['exc'], 'msg': out.get('msg'), 'entry': 'XMLResource'})
+        elif out['res'] != 'ok' and not out.get('library'):
+            ctx.failure('the refusal is not an exception of the library hierarchy (documented: XMLResourceExceeded < XMLResourceError)',
+                        case, out)
         elif (over_depth or over_size) and out['res'] == 'ok':
             ctx.failure('a document over a limit was processed instead of being refused with XMLResourceExceeded', case, out)
         elif not (over_depth or over_size) and out['res'] != 'ok':
@@ -697,7 +706,8 @@ def measure_d0(schema: Any) -> Optional[int]:
         data = forest_xml(chain(d)).encode()
         o = deep(25, lambda: call(lambda: schema.is_valid(data)))
         return o.get('exc') == 'RecursionError'
-    lo, hi = 20, 1000
+    from xmlschema import _limits
+    lo, hi = 20, max(30, min(1000, _limits.MAX_XML_DEPTH) - 10)
     if not fails(hi):
         return None
     while lo < hi:
